@@ -25,17 +25,25 @@ TokCode(t) == CASE t \in {"pos", "v1", "a1", "f1", "en"} -> 1 [] t \in {"neg", "
                 [] t = "enall" -> 3 [] t = "disall" -> 4
 RECURSIVE ArgvCode(_)
 ArgvCode(a) == IF a = << >> THEN 0 ELSE TokCode(Head(a)) + 5 * ArgvCode(Tail(a))
+KindCode(k) == CASE k = "bool" -> 0 [] k = "flag" -> 1 [] k = "int" -> 2 [] k = "list" -> 3 [] k = "paths" -> 4 [] k = "files" -> 5
+RECURSIVE LookupsCode(_, _)
+LookupsCode(ls, i) ==
+    IF i > Len(ls) THEN 23
+    ELSE Mix(LookupsCode(ls, i + 1) + KindCode(ls[i].kind) + 8 * Len(ls[i].q) + (IF ls[i].q = <<"c">> THEN 32 ELSE 0))
 CaseCode(c) ==
     LET h1 == Mix(FilesCode(c.files, 1) + ValCode(c.cmd) + 4 * Len(c.q) + (IF c.q = <<"c">> THEN 16 ELSE 0))
         h2 == Mix(h1 + ArgvCode(c.argv)
                   + 32 * (CASE c.route = "inst" -> 0 [] c.route = "kwargs" -> 1 [] c.route = "argv" -> 2)
                   + 128 * (CASE c.cfgsrc = "arg" -> 0 [] c.cfgsrc = "class" -> 1 [] c.cfgsrc = "none" -> 2)
                   + (IF c.layout = "nested" THEN 512 ELSE 0) + (IF c.default = <<"F">> THEN 1024 ELSE 0))
-    IN Mix(h2)
+    IN Mix(h2 + LookupsCode(c.lookups, 1))
 
 Emitted(c) ==
     \/ c.bad # "none"
     \/ CaseCode(c) % (IF c.kind = "bool" THEN EmitMod ELSE EmitModRest) = EmitRem % (IF c.kind = "bool" THEN EmitMod ELSE EmitModRest)
 
-EmitDone == (stage = "done" /\ Emitted(case)) => PrintT(ToJson(case))
+\* histories: those with at least two lookups, thinned out like the kinds other than the error codes
+EmittedHist(c) == Len(c.lookups) >= 2 /\ CaseCode(c) % EmitModRest = EmitRem % EmitModRest
+
+EmitDone == ((stage = "done" /\ Emitted(case)) \/ (stage = "hist" /\ EmittedHist(case))) => PrintT(ToJson(case))
 =============================================================================
